@@ -2104,6 +2104,168 @@ fn chain_family(rng: &mut Rng, out: &mut Vec<String>) {
     }
 }
 
+
+// ------------------------------------------------------------------------------------------------
+// DATE family: `date-effective` / `date-expires` texts at the edges of what `parse_date_string` accepts (chrono is not modelled:
+// the oracle is "Ok or Err, no panic"), through parse_rule (AT, PU), parse_rules (R), parse_with_modules (M)
+// ------------------------------------------------------------------------------------------------
+const DATE_YEARS: [&str; 22] = [
+    "+262142", "+262143", "262142", "-262143", "-262144", "+262141", "-262142", "0000", "0001", "9999", "10000", "+10000", "+9999", "-0001",
+    "-1", "2024", "2023", "1900", "2000", "1970", "99999", "+0000",
+];
+const DATE_EDGE_YEARS: usize = 7; // the first DATE_EDGE_YEARS entries: every attribute x every entry point
+const DATE_MD: [(&str, &str, &str); 12] = [
+    ("12", "31", "Dec"), ("01", "01", "Jan"), ("12", "30", "Dec"), ("02", "29", "Feb"), ("02", "28", "Feb"), ("02", "30", "Feb"), ("00", "10", "Jan"),
+    ("13", "01", "Dec"), ("01", "00", "Jan"), ("01", "32", "Jan"), ("06", "31", "Jun"), ("1", "2", "jan"),
+];
+const DATE_TIMES: [&str; 7] = ["00:00:00", "23:59:59", "24:00:00", "23:59:60", "12:60:00", "00:00", "0:0:0"];
+const DATE_FRAC: [&str; 8] = ["", ".1", ".12", ".123", ".123456", ".123456789", ".123456789012", "."];
+const DATE_OFF: [&str; 12] = ["Z", "+00:00", "-00:00", "+23:59", "-23:59", "+24:00", "+05:30", "z", "", "+0000", "-12:00", "+14:00"];
+
+fn date_texts() -> Vec<(String, bool)> {
+    let mut v: Vec<(String, bool)> = Vec::new();
+    let mut k = 0usize;
+    for (yi, y) in DATE_YEARS.iter().enumerate() {
+        let edge_y = yi < DATE_EDGE_YEARS;
+        for (mi, (m, d, mon)) in DATE_MD.iter().enumerate() {
+            let edge = edge_y && mi < 3;
+            // without a time of day: the three date formats
+            v.push((format!("{}-{}-{}", y, m, d), edge));
+            v.push((format!("{}-{}-{}", d, m, y), edge));
+            v.push((format!("{}-{}-{}", d, mon, y), edge));
+            // %Y-%m-%dT%H:%M:%S
+            for t in DATE_TIMES {
+                v.push((format!("{}-{}-{}T{}", y, m, d, t), edge && t.len() == 8));
+            }
+            // RFC 3339: time x fraction x offset (every pair for the edge dates, a rotation otherwise)
+            for (ti, t) in DATE_TIMES.iter().enumerate() {
+                if edge && ti < 4 {
+                    for f in DATE_FRAC {
+                        for o in DATE_OFF {
+                            v.push((format!("{}-{}-{}T{}{}{}", y, m, d, t, f, o), false));
+                        }
+                    }
+                } else {
+                    k += 1;
+                    let f = DATE_FRAC[k % DATE_FRAC.len()];
+                    let o = DATE_OFF[(k / DATE_FRAC.len() + k) % DATE_OFF.len()];
+                    let sep = ["T", "T", "t", " "][k % 4];
+                    v.push((format!("{}-{}-{}{}{}{}{}", y, m, d, sep, t, f, o), false));
+                }
+            }
+        }
+    }
+    // white space / emptiness around the value
+    for s in [" ", "2024-01-01 ", " 2024-01-01", "+262142-12-31 ", "\u{e9}", "2024-01-01T", "T00:00:00", "-", "--", "31-12", "+-1-01-01"] {
+        v.push((s.to_string(), true));
+    }
+    v
+}
+
+fn date_family(out: &mut Vec<String>) {
+    let mut k = 0usize;
+    for (d, edge) in date_texts() {
+        if d.contains('"') {
+            continue;
+        }
+        let combos: Vec<(usize, usize)> = if edge {
+            (0..3).flat_map(|a| (0..4).map(move |e| (a, e))).collect()
+        } else {
+            k += 1;
+            vec![(k % 3, (k / 3) % 4)]
+        };
+        for (a, e) in combos {
+            let attrs = match a {
+                0 => format!("date-effective \"{}\"", d),
+                1 => format!("date-expires \"{}\"", d),
+                _ => format!("salience 5 date-effective \"2020-01-01\" date-expires \"{}\" no-loop", d),
+            };
+            let rule = format!("{}{}{}", WRAP_AT.0, attrs, WRAP_AT.1);
+            match e {
+                0 => out.push(mk_case("AT", &attrs)),
+                1 => out.push(mk_case("PU", &rule)),
+                2 => out.push(mk_case("R", &format!("{}\nrule \"s\" {{ when X == 2 then Y = 2; }}", rule))),
+                _ => out.push(mk_case("M", &format!("defmodule A {{\n export: all\n}}\n;; MODULE: A - x\n{}", rule))),
+            }
+        }
+    }
+}
+
+// ------------------------------------------------------------------------------------------------
+// KEYWORD family (G / GQ): 0..4 occurrences of every keyword the query parser searches for, glued to identifier characters / `-` /
+// multi-byte characters, in the query name, before and after the stand-alone occurrence, or with no stand-alone occurrence
+// ------------------------------------------------------------------------------------------------
+const KW: [(&str, &str, &str); 11] = [
+    ("goal:", "X == 1", "vip"),
+    ("strategy:", "breadth-first", "iterative"),
+    ("max-depth:", "5", "7"),
+    ("max-solutions:", "3", "9"),
+    ("enable-memoization:", "true", "false"),
+    ("enable-optimization:", "false", "true"),
+    ("on-success:", "{ A = 1; Log(\"a\"); }", "{ B = 2; }"),
+    ("on-failure:", "{ A = 0; }", "{ B = 3; }"),
+    ("on-missing:", "{ Ask(\"x\"); }", "{ B = 4; }"),
+    ("when:", "Y == 2", "Z == 3"),
+    ("query", "", ""),
+];
+const KW_GLUE: [&str; 12] = ["sub", "end_", "x-", "9", "\u{e9}", "\u{65e5}", "\u{1F600}", "_", "-", "\u{130}", "Sub.", "a\u{a0}"];
+
+fn kw_family(out: &mut Vec<String>) {
+    let mut k = 0usize;
+    for (kw, _val, gval) in KW {
+        for n in 0..=4usize {
+            // where the glued occurrences go: 0 query name, 1 lines before the stand-alone one, 2 lines after it, 3 spread over all three,
+            // 4 one line (no line break between them)
+            for place in 0..5usize {
+                for standalone in [true, false] {
+                    for tail in 0..2usize {
+                        k += 1;
+                        let occ: Vec<String> = (0..n)
+                            .map(|i| {
+                                let g = KW_GLUE[(k + 5 * i) % KW_GLUE.len()];
+                                // tail 1: an identifier character glued BEHIND the keyword as well
+                                if tail == 1 { format!("{}{}{}", g, kw, gval.replace(' ', "")) } else { format!("{}{} {}", g, kw, gval) }
+                            })
+                            .collect();
+                        let mut name = String::from("Q");
+                        let mut pre = String::new();
+                        let mut post = String::new();
+                        for (i, o) in occ.iter().enumerate() {
+                            let slot = match place { 0 => 0, 1 => 1, 2 => 2, 3 => i % 3, _ => 3 };
+                            let o_name = o.replace('"', "'");
+                            match slot {
+                                0 => { name.push_str(", "); name.push_str(&o_name); }
+                                1 => { pre.push_str(&format!(" {}\n", o)); }
+                                2 => { post.push_str(&format!(" {}\n", o)); }
+                                _ => { pre.push_str(&format!(" {}", o)); }
+                            }
+                        }
+                        if place == 4 && n > 0 {
+                            pre.push('\n');
+                        }
+                        let mut body = String::new();
+                        for (kw2, val2, _) in KW {
+                            if kw2 == "query" {
+                                continue;
+                            }
+                            if kw2 == kw && !standalone {
+                                continue;
+                            }
+                            body.push_str(&format!(" {} {}\n", kw2, val2));
+                        }
+                        if kw == "query" && standalone {
+                            post.push_str(" query\n");
+                        }
+                        let q = format!("query \"{}\" {{\n{}{}{}}}", name, pre, body, post);
+                        out.push(mk_case("G", &q));
+                        out.push(mk_case("GQ", &format!("{}\nquery \"Q2\" {{\n goal: Y == 2\n}}", q)));
+                    }
+                }
+            }
+        }
+    }
+}
+
 fn gen(rng: &mut Rng, n: usize, _tier: &str) -> Vec<String> {
     let mut out = Vec::new();
     // exhaustive short strings over a tiny alphabet for the two most hazardous slicing kernels
@@ -2297,6 +2459,9 @@ fn gen(rng: &mut Rng, n: usize, _tier: &str) -> Vec<String> {
             }
         }
     }
+    // deterministic families added after every older stream
+    date_family(&mut out);
+    kw_family(&mut out);
     out
 }
 
